@@ -47,7 +47,7 @@ func verifC38Raw(maxLen int) string {
 		// text whose host spells the Docker scheme
 		w := []string{"docker", "DoCkEr"}[vChoose(2)]
 		vLabel("docker-host-rest")
-		return w + ":" + verifASCII(vRange(0, maxLen))
+		return w + ":" + verifASCII(vRange(0, vParam("maxdockerhost", maxLen)))
 	case 0:
 		// free text
 		vLabel("raw")
